@@ -317,6 +317,22 @@ def r6(ctx, prog):
                     if have is not None and idx is not None and idx < have:
                         ok = True
             ctx.ob('C13.R6', '%s|begin[%s]' % (f.name, idx), ok, 'begin[%s] read under readableSize() > %s' % (idx, idx), where=f.loc(st['i']))
+    # begin + k: an iterator/pointer k bytes into the readable data is only formed when at least k bytes are there (std::find(begin + 4, end) with fewer
+    # than 4 bytes is a reversed range: the search runs past the buffer)
+    for st in f.stmts:
+        if st and st['k'] == 'BinaryOperator' and st.get('op') == '+' and f.path(st['ch'][0]) == 'begin' and (f.s(st['ch'][1]) or {}).get('cv') is not None:
+            k_ = f.s(st['ch'][1])['cv']
+            p = f.cfg.point_of(st['i'])
+            ok = False
+            for c, k, b in f.cfg.controlling_branches(p):
+                cs = f.s(f.strip_casts(c))
+                if cs and cs['k'] == 'BinaryOperator' and cs.get('op') == '<' and k == 1 and any(x.get('fn') == 'readableSize' for x in q.subtree_calls(f, c)):
+                    have = f.s(f.strip_casts(cs['ch'][1])).get('cv')
+                    if have is not None and have >= k_:
+                        ok = True
+            ctx.ob('C13.R6', '%s|begin+%s' % (f.name, k_), ok, 'begin + %s formed under readableSize() >= %s' % (k_, k_) if ok else
+                   'begin + %s is formed (search start / payload pointer) without a dominating readableSize() >= %s test: with a shorter fragment the range handed to std::find '
+                   'is reversed and the scan leaves the buffer' % (k_, k_), where=f.loc(st['i']))
     g = prog.fn1(TEL + '::onRecvSub')
     pd = next((p_ for p_ in g.params if p_['n'] == 'p'), None)
     sd = next((p_ for p_ in g.params if p_['n'] == 's'), None)
